@@ -3,7 +3,6 @@ package deb
 
 import (
 	"archive/tar"
-	"bufio"
 	"bytes"
 	"compress/gzip"
 	"crypto/md5" // nolint:gas
@@ -804,17 +803,18 @@ func writeControl(w io.Writer, data controlData) error {
 			return strings.Trim(strings.Join(strs, ", "), " ")
 		},
 		"multiline": func(strs string) string {
+			// no bufio.Scanner here: it gives up on lines longer than 64 KiB and
+			// the rest of the description would be dropped silently
 			var b strings.Builder
-			s := bufio.NewScanner(strings.NewReader(strings.TrimSpace(strs)))
-			s.Scan()
-			b.Write(bytes.TrimSpace(s.Bytes()))
-			for s.Scan() {
+			lines := strings.Split(strings.TrimSpace(strs), "\n")
+			b.WriteString(strings.TrimSpace(lines[0]))
+			for _, line := range lines[1:] {
 				b.WriteString("\n ")
-				l := bytes.TrimSpace(s.Bytes())
+				l := strings.TrimSpace(line)
 				if len(l) == 0 {
 					b.WriteByte('.')
 				} else {
-					b.Write(l)
+					b.WriteString(l)
 				}
 			}
 			return b.String()
